@@ -203,14 +203,17 @@ theorem define_ok {env : List OType} {d : Def} {t : OType} (h : define env d = .
     ∃ attrs, defineAttrs (parentOf env d) (d.decls (parentOf env d)) = .ok attrs ∧
       checkSerialization attrs (parentOf env d) false [] (d.serialization.getD []) = .ok () ∧
       t = { id := env.length, attrs := attrs, equality := d.equality.toList?,
-            includeType := d.includeType.getD true, serialization := d.serialization } :: parentOf env d := by
+            includeType := d.includeType.getD true, serialization := d.serialization, params := d.params } ::
+          parentOf env d := by
   unfold define at h
   generalize parentOf env d = parent at h ⊢
   simp only at h
   split at h
   · cases h
+  split at h
+  · cases h
   · rename_i hboth
-    refine ⟨by simpa using hboth, ?_⟩
+    refine ⟨Bool.eq_false_iff.mpr hboth, ?_⟩
     cases ha : defineAttrs parent (d.decls parent) with
     | error c => simp [ha] at h
     | ok attrs =>
@@ -452,7 +455,7 @@ theorem define_wf {env : List OType} {d : Def} {t : OType} (henv : ∀ t' ∈ en
   obtain ⟨h1, h2⟩ := defineAttrs_ok hattrs
   subst ht
   have hok := typeOK_cons
-    (l := ⟨env.length, attrs, d.equality.toList?, d.includeType.getD true, d.serialization⟩)
+    (l := ⟨env.length, attrs, d.equality.toList?, d.includeType.getD true, d.serialization, d.params⟩)
     hparent (by rw [h1]; exact decls_nodup hnd hcn hboth) h2
   refine ⟨hok, ?_⟩
   rcases Option.eq_none_or_eq_some d.serialization with hs | ⟨ser, hs⟩
